@@ -41,6 +41,8 @@ def run_property(pid, tier, repo, evidence_dir, replay_keys=None, quiet=False):
         apply_sharing(model, report, pid)
         from .rules.readers import apply_readers
         apply_readers(model, report, pid)
+        from .rules.sections import apply_sections
+        apply_sections(model, report, pid)
         if not report.obligations:
             raise AnalysisError("no obligation was evaluated")
     except AnalysisError as e:
